@@ -41,7 +41,8 @@ def no_three_collinear(pts):
 def conic_case(draw, tier="quick"):
     what = draw(st.sampled_from(["from_points", "from_crossratio", "from_tangent", "from_foci", "from_points_complex"]))
     return {"what": what, "pts": [[draw(C.ints(6)), draw(C.ints(6))] for _ in range(5)], "line": draw(C.ivec(3, 6)), "s": [draw(C.scale()) for _ in range(5)],
-            "diag": draw(st.sampled_from([0, 0, 1, 2, 3]))}
+            "diag": draw(st.sampled_from([0, 0, 1, 2, 3])),
+            "axis": draw(st.sampled_from([None, None, [1, 0, 0], [1, 0, 0], [0, 1, 0], [0, 0, 1], [1, 1, 0], [1, 0, 1], [0, 1, 1], [1, -1, 0], [-2, 0, 0]]))}
 
 
 def run_conic(c):
@@ -110,6 +111,11 @@ def run_conic(c):
         return ck.result()
     if what == "from_tangent":
         four = pts[:4]
+        if c.get("axis") is not None and not c.get("diag"):
+            # tangent lines with zero coordinates: the coordinate axes, the line at infinity (parabolas), lines through the origin
+            if len(c["axis"]) != 3 or not any(c["axis"]) or any(not isinstance(x, int) or abs(x) > 2 for x in c["axis"]):
+                raise Skip("malformed")
+            c = dict(c, line=list(c["axis"]))
         l = [Fraction(x) for x in c["line"]]
         if not no_three_collinear(four):
             raise Skip("three collinear points")
@@ -379,8 +385,9 @@ def cone_labels(c):
 
 
 LAWS = [
-    Law("conic_constructors", lambda tier: conic_case(tier), run_conic, lambda c: True, lambda c: [c["what"]], {"quick": 1500, "thorough": 30000},
-        "from_points / from_crossratio / from_tangent / from_foci", shard=300),
+    Law("conic_constructors", lambda tier: conic_case(tier), run_conic, lambda c: True,
+        lambda c: [c["what"]] + (["tangent:" + ",".join(str(x) for x in c["axis"])] if c["what"] == "from_tangent" and c.get("axis") is not None and not c.get("diag") else []), {"quick": 2000, "thorough": 30000},
+        "from_points / from_crossratio / from_tangent / from_foci", shard=300, mandatory=("tangent:1,0,0", "tangent:0,1,0")),
     Law("round", lambda tier: round_case(tier), run_round, lambda c: any(c["c"]), lambda c: [c["what"]] + (["moved-by-a-similarity"] if c.get("moved") else []), {"quick": 1000, "thorough": 20000},
         "Circle / Ellipse / Sphere: locus membership, center, radius, foci, area, volume; also after a similarity (scaling, translation) of the library", shard=300, mandatory=("moved-by-a-similarity",)),
     Law("cone_cylinder", lambda tier: cone_case(tier), run_cone, cone_nontrivial, cone_labels, {"quick": 1200, "thorough": 25000},
